@@ -24,11 +24,7 @@ Print Assumptions C04_unknown_only_if_enabled.
 Theorem C04_unused_reported_when_rule_absent :
   exists o f, mem BAN_UNUSED (o_rules o) = false /\
     exists d, In d (lint_inner o id_oracle f [] NoCallback) /\ d_code d = BAN_UNUSED.
-Proof.
-  exists (mkOpts None None [[110; 111]] [[110; 111]]).
-  exists (mkFile [] [mkComment true (W_LINE ++ [32; 110; 111]) 0 22] []).
-  split; [reflexivity|]. eexists. split; [vm_compute; left; reflexivity | reflexivity].
-Qed.
+Proof. exact unused_reported_when_rule_absent. Qed.
 Print Assumptions C04_unused_reported_when_rule_absent.
 
 (* rules do not influence one another through the pipeline: the output diagnostics of an ordinary
